@@ -45,7 +45,7 @@ def gen(rng, scenario, tier):
         cfg["significance"] = 0.0      # legal extreme: an infinite t quantile
     d = 1 if cls == "CDBD" else rng.randint(1, 3)
     bs, drifts = workload.batches(rng, rng.randint(6, 23), d, 8, 60, drift_rate=rng.choice([0.15, 0.3]),
-                                  nd=rng.choice([3, 4]), integer=rng.random() < 0.1)
+                                  nd=rng.choice([3, 4]), integer=rng.random() < 0.1, regimes=("offset", "tiny", "lattice"))
     if rng.random() < 0.1:
         # one feature sits on a huge offset (its spread is tiny relative to its magnitude, but it is not constant)
         off = rng.choice([1e6, -1e6, 1e8])
@@ -152,7 +152,13 @@ def _run(case, ctx, rec):
         ctx.sim_time += 1
         uses_boot = (spec.j + 1 == 2 and db != 3)
         eps0 = float(det.epsilon[0]) if uses_boot and len(det.epsilon) >= 1 else None
-        out = spec.step(X, eps0)
+        try:
+            out = spec.step(X, eps0)
+        except ValueError as e:
+            if "Too many bins for data range" in str(e):     # a feature that is constant as far as floats can tell: outside the domain
+                ctx.note("documented_refusal:histogram_of_constant_feature")
+                raise EndRun()
+            raise
         where = f"call {i} (batch {spec.j} of the epoch started by {epoch_by}, {out['ref_n']} reference rows, {len(X)} test rows)"
         if not close(det.current_distance, out["distance"], 1e-9):
             _fail(ctx, "distance", "distance", f"{where}: current_distance={det.current_distance!r}, model {out['distance']!r} ({out['bins']} bins)", cfg)
